@@ -441,6 +441,9 @@ def features_of(ev, prog):
         feats["kind"] = x.get("kind", x.get("t"))
         if isinstance(x.get("blocks"), list):
             feats["in0_has_blocks"] = bool(x["blocks"])
+        ch = x.get("charge")
+        if isinstance(ch, list) and len(ch) == 2:
+            feats["in0_odd_charge"] = bool((ch[0] + ch[1]) % 2)
         feats["sym"] = x.get("sym", "")
         c = ev.get("args", {}).get("c")
         if isinstance(c, list) and len(c) == 2:
